@@ -2634,7 +2634,7 @@ class Scene:
         set_trim_state = kwargs.get("set_trim_state", True)
         if set_trim_state:
             airplane_object.set_aerodynamic_state(alpha=alpha1, v_wind=v_wind)
-            self.set_aircraft_control_state({pitch_control : delta_flap1}, aircraft=aircraft_name)
+            self.set_aircraft_control_state(controls, aircraft=aircraft_name)
 
         else: # Return to the original state
             airplane_object.set_aerodynamic_state(alpha=alpha_original, v_wind=v_wind)
